@@ -328,7 +328,17 @@ def acceptance_by_complete_verb(ctx, repo, rule):
     n = 0
     for c in classes:
         claimed = []
-        for pr in sorted(probes):
+        # ... and another consumer's message that merely CONTAINS this consumer's verb (in its payload): the verb is the
+        # first five bytes of a datagram, nothing else
+        own = []
+        for v in sorted(verbs):
+            try:
+                if can_handle(repo, interp, c, fresh_handler(repo, interp, c), v + bytes(6)):
+                    own.append(v)
+            except (PyRaise, Undecided):
+                pass
+        embedded = {v + b"\x00\x01" + w + b"\x02\x03" for w in own for v in verbs if v not in own}
+        for pr in sorted(probes | embedded):
             try:
                 if can_handle(repo, interp, c, fresh_handler(repo, interp, c), pr):
                     claimed.append(pr)
@@ -339,7 +349,7 @@ def acceptance_by_complete_verb(ctx, repo, rule):
                 raise AnalysisError(f"{c.short}.can_handle on {pr!r}: {e}")
             n += 1
         ctx.ob(rule, f"{c.short}.can_handle::claims-only-complete-verbs", not claimed,
-               f"{c.short}.can_handle claims (or raises on) {len(claimed)} datagram(s) that carry none of the library's verbs, e.g. {claimed[:3]}: "
+               f"{c.short}.can_handle claims (or raises on) {len(claimed)} datagram(s) that do not START with one of its verbs (truncated / unknown verbs, bare tags, another consumer's message with this verb in its payload), e.g. {claimed[:3]}: "
                f"a truncated or unknown verb is taken by a consumer that does not accept it instead of being discarded as unhandled", repo.method(c.short, "can_handle").loc,
                sample={"rule": rule, "class": c.short, "probes": len(probes), "claimed": [repr(x) for x in claimed[:5]]})
     ctx.count(f"{rule}:can_handle probes", n)
